@@ -371,6 +371,8 @@ func runC02(p *Prog, r *Report) {
 		why: "line wrapping must not alter glyph storage that it shares with the input runs and with other candidates", floorSeen: 30})
 	ruleAdv(p, r)
 	ruleCut(p, r)
+	r.Explain = append(r.Explain, "R-TRIM/start: every call of wrapBuffer.singleRunParagraph (the line constructor of the WrapParagraph shortcut) is preceded on every path by the trimming of the leading letter spacing of the run, as WrapNextLine does for the first run of a line: the same paragraph measures the same whichever path builds its line.")
+	ruleTrimStart(p, r)
 	wrapperState(p, r)
 	r.Assumptions = append(r.Assumptions, "RunIterator implementations outside the module are not analysed")
 	r.NotDecided = append(r.NotDecided, "exact-once coverage of the paragraph, order, cluster integrity, non-empty lines, termination of the wrapping loops (runtime arithmetic)")
@@ -1197,6 +1199,43 @@ func ruleTrim(p *Prog, r *Report) {
 		return
 	}
 	r.Check(readsVis(ppl), rule, key, p.Pos(ppl.Pos()), "the run whose end glyph is trimmed is selected by comparing VisualIndex values (the visually last run), not by walking logical order or directions")
+}
+
+// ruleTrimStart — R-TRIM/start: the first run of a line has its leading letter spacing trimmed. WrapNextLine does it where
+// a run enters an empty candidate; the shortcut of WrapParagraph builds its line with wrapBuffer.singleRunParagraph: every
+// call of that constructor is preceded, on every path, by (*Output).trimStartLetterSpacing (directly or through a callee),
+// so that the same paragraph measures the same whichever path builds its line.
+func ruleTrimStart(p *Prog, r *Report) {
+	const rule = "R-TRIM/start"
+	ctor := p.Func("shaping", "wrapBuffer", "singleRunParagraph")
+	trim := p.Func("shaping", "Output", "trimStartLetterSpacing")
+	reach := map[*ssa.Function]bool{}
+	for _, f := range p.ModFns() {
+		if fnPkg(f) != nil && fnPkg(f).Path() == p.pkgPath("shaping") && f != ctor && reachableFns(p, []*ssa.Function{f})[trim] {
+			reach[f] = true
+		}
+	}
+	n := 0
+	for _, f := range p.ModFns() {
+		if fnPkg(f) == nil || fnPkg(f).Path() != p.pkgPath("shaping") {
+			continue
+		}
+		for _, c := range callsOf(f, ctor) {
+			n++
+			key := p.FnName(f) + "/singleRunParagraph"
+			r.Instance(rule, key)
+			ok, path := mustPrecede(p, f, c, func(in ssa.Instruction) bool {
+				ci, isCall := in.(ssa.CallInstruction)
+				if !isCall {
+					return false
+				}
+				sc := ci.Common().StaticCallee()
+				return sc != nil && (sc == trim || reach[sc])
+			}, nil)
+			r.Check(ok, rule, key, p.IPos(c), "the run of a line built by the shortcut has its leading letter spacing trimmed on every path, as the first run of the lines built by WrapNextLine", path...)
+		}
+	}
+	r.Floor(rule, n, 1)
 }
 
 // ruleTrimFast — R-TRIM/fast: a line built outside WrapNextLine (wrapBuffer.singleRunParagraph, the shortcut of
